@@ -29,7 +29,7 @@ def _rt(job):
     text = v2version.format_version(v, pat)
     valid, back, again, exc = _readback(text, pat) if text else (True, glue.state(v), [], "")
     st = glue.state(v)
-    return dict(ev="rt", P=glue.parse_pattern(pat), v=st, text=glue.cp(text), valid=valid, back=back, again=again,
+    return dict(ev="rt", P=glue.parse_pattern(pat, file_pattern=pat.startswith("^") or pat.endswith("$")), v=st, text=glue.cp(text), valid=valid, back=back, again=again,
                 today=drive.TODAY.toordinal(), dbg="%s %s" % (pat, text), pat=pat, week53=_week53(pat, st), exc=exc)
 
 
@@ -213,6 +213,11 @@ def run(ctx):
     special = corpus.boundary_dates() + corpus.week53_dates() + corpus.new_year_dates(3, 2019, 2027)
     for i in range(n_rt):
         jobs.append((pats[i % len(pats)], corpus.random_state_kw(rng), rng.choice(special) if rng.random() < 0.4 else corpus.random_date(rng)))
+    # patterns as they stand in file_patterns: literal text around the version pattern, line anchors, escaped brackets (normalised the way the config loader does)
+    for vp_ in ("vYYYY0M.BUILD[-TAG]", "MAJOR.MINOR.PATCH[PYTAGNUM]", "YYYY.MM[.INC0]", "MAJOR.MINOR.PATCH"):
+        for wrap in ('^__version__ = "%s"$', '__version__ = "%s"$', '^version: %s', 'img/\\[CalVer %s\\]-blue', '%s$'):
+            for _ in range(ctx.pick(12, 200)):
+                jobs.append((wrap % vp_, corpus.random_state_kw(rng), corpus.random_date(rng)))
     ctx.log('rt jobs %d' % len(jobs))
     events += drive.pmap(_rt, jobs, hooks=False, chunksize=500)
     ctx.log('rt done')
